@@ -22,11 +22,15 @@ META = {
                   "srctools.math:AngleBase._rotate_angle", "srctools.math:Angle.__imatmul__", "srctools.math:Matrix.__imatmul__"],
     "bounds": "no value bound: pitch/yaw/roll enter as (sin, cos) pairs of arbitrary reals with s^2+c^2=1, vectors and general matrices "
               "as arbitrary reals; the inverse obligation explores every pivoting path of the Gauss-Jordan code",
-    "outside": "IEEE-754 rounding (identities are over the reals), the quantitative gimbal-lock tolerance, magnitudes, the Cython/C++ twins",
+    "outside": "IEEE-754 rounding (identities are over the reals), the quantitative gimbal-lock tolerance, magnitudes, the Cython/C++ twins; "
+               "inverse() of matrices that are not rotations",
     "stubs": ["srctools.math.math -> MathProxy (sin/cos of an angle tag are symbols; sqrt, atan2 by their defining equations)",
               "srctools.math.float -> FloatShim (passes symbolic floats through)"],
     "trusted_base": ["z3 nlsat (QF_NRA)", "vf/symx.py operator-overloading executor", "SDK AngleMatrix formula transcribed in the harness as the reference"],
-    "assumptions": ["sin^2+cos^2=1 is the only fact about sin/cos used", "atan2(y,x) is characterised by sin=y/r, cos=x/r, r=|(x,y)|>0",
+    "assumptions": ["inverse obligation: a proper rotation is any real 3x3 matrix with M.M^T = M^T.M = I and det M = 1 (9 free reals, no Euler "
+                    "parametrisation); the composition of the solver-proved steps (rewrite rules of the rational normal form, "
+                    "associativity instance, pivot-product identity) into one argument per path is done by the harness",
+                    "sin^2+cos^2=1 is the only fact about sin/cos used", "atan2(y,x) is characterised by sin=y/r, cos=x/r, r=|(x,y)|>0",
                     "x % 360 does not change sin/cos of x"],
     "explanation": "Each obligation runs the real srctools.math methods on symbolic reals and asks z3 whether the negated identity is "
                    "satisfiable together with the trigonometric side constraints; unsat = the identity holds for all reals. "
@@ -593,61 +597,400 @@ def o_roundtrip(entry: int = -1, timeout_s: int = 120, _concrete=None):
     return rec.result()
 
 
-class _Cut(Exception):
-    pass
+# ------------------------------------------------------------------ inverse() == transpose() on rotations
+
+def _purify(z3, e, cache, defs):
+    """Replace every division node of `e` by a fresh variable q (bottom-up); defs gets (q, num, den, purified num, purified den).
+    The purified expression equals the original whenever q*den == num for every definition (and den != 0)."""
+    k = e.get_id()
+    if k in cache:
+        return cache[k]
+    if z3.is_app(e) and e.num_args() > 0:
+        args = [_purify(z3, a, cache, defs) for a in e.children()]
+        if e.decl().kind() == z3.Z3_OP_DIV:
+            q = z3.Real(f"q{len(defs)}")
+            defs.append((q, e.arg(0), e.arg(1), args[0], args[1]))
+            r = q
+        else:
+            r = e.decl()(*args)
+    else:
+        r = e
+    cache[k] = r
+    return r
 
 
-def o_inverse_pivot(_concrete=None):
-    """Partial claim for inverse(): on every proper rotation the first pivot search of the Gauss-Jordan code finds a
-    pivot, i.e. the 'Matrix has no inverse' error cannot be raised before the first elimination step.
-    (The full clause inverse()==transpose() is outside reach: see DESIGN, C04.) The path is cut at the first division."""
+def _subterm_vars(z3, e, acc):
+    if z3.is_const(e) and e.decl().kind() == z3.Z3_OP_UNINTERPRETED:
+        acc[str(e)] = e
+    for c in e.children():
+        _subterm_vars(z3, c, acc)
+    return acc
+
+
+def _ratnorm(z3, e, cache):
+    """(N, D) with e == N/D, built by the four textbook rules for +, *, /, unary minus (each rule is proved abstractly by the
+    solver in o_inverse, 'rule:' items). N and D contain no division. D is a product of child denominators and of the
+    numerators of divisors, so D != 0 whenever every divisor occurring in e is non-zero."""
+    k = e.get_id()
+    if k in cache:
+        return cache[k][0]
+    one = z3.RealVal(1)
+    kind = e.decl().kind() if z3.is_app(e) else None
+    ch = e.children()
+    if not ch:
+        r = (e, one)
+    elif kind in (z3.Z3_OP_ADD, z3.Z3_OP_SUB):
+        n, d = _ratnorm(z3, ch[0], cache)
+        for c in ch[1:]:
+            n2, d2 = _ratnorm(z3, c, cache)
+            if kind == z3.Z3_OP_SUB:
+                n2 = -n2
+            if d.eq(d2):
+                n = n + n2
+            else:
+                n, d = n * d2 + n2 * d, d * d2
+        r = (n, d)
+    elif kind == z3.Z3_OP_MUL:
+        n, d = _ratnorm(z3, ch[0], cache)
+        for c in ch[1:]:
+            n2, d2 = _ratnorm(z3, c, cache)
+            n, d = n * n2, d * d2
+        r = (n, d)
+    elif kind == z3.Z3_OP_UMINUS:
+        n, d = _ratnorm(z3, ch[0], cache)
+        r = (-n, d)
+    elif kind == z3.Z3_OP_DIV:
+        n, d = _ratnorm(z3, ch[0], cache)
+        n2, d2 = _ratnorm(z3, ch[1], cache)
+        r = (n * d2, d * n2)
+    else:
+        raise RuntimeError(f"unexpected operator {e.decl()} in a real-arithmetic term")
+    cache[k] = (r, e)      # keep e alive: ids of freed terms are recycled
+    return r
+
+
+def o_inverse(part: int = 0, nparts: int = 1, _concrete=None):
+    """inverse() == transpose() on every proper rotation, for every pivoting path of the real Gauss-Jordan code.
+
+    The matrix is 9 arbitrary reals m_ij; "rotation" = M.M^T = I, M^T.M = I, det M = 1. Every decision vector of the real
+    code is enumerated (no feasibility pruning), and each path is closed by a chain of solver queries (each one a validity
+    query z3 decides; later queries use earlier ones only as assumptions that were themselves proved):
+      success path:  every denominator is non-zero (by the path condition, or because it equals an earlier denominator, or by
+                     the generic identity p0*p1*p2 == +-det M);  out.M == I or M.out == I as a generic rational identity;
+                     X.M == I (or M.X == I) and M orthogonal  =>  X == M^T  (abstract lemma with the associativity instance).
+      error path:    infeasible on rotations: column-0/1 pivot search fails => contradiction with the unit orthogonal columns;
+                     a tolerance rejection |v| <= 1e-5 => v is a pivot, |p0|<=1, |p1|<=2, |p2|<=4 (entries and forward
+                     multipliers are bounded by 1) and |p0.p1.p2| == 1.
+    """
     fx = _fx(_concrete)
     z3, sm, symx = fx.z3, fx.sm, fx.symx
     rec = Rec(fx)
-    M, ents, rcons, lemmas = _rotation(fx, sm.Py_Matrix)
     if fx.concrete is not None:
-        try:
-            inv = M.inverse()
-        except ArithmeticError as e:
-            rec.fail = {"query": "inverse raised ArithmeticError on a rotation", "goal": str(e), "model": dict(fx.used)}
-            return rec.result()
-        rec.prove("inverse==transpose (numeric)", [], _eq_all(z3, _ents(inv), [[ents[j][i] for j in range(3)] for i in range(3)]))
+        for cls in (sm.Py_Matrix, sm.Py_FrozenMatrix):
+            M, ents = fx.gen_matrix(cls, "m")
+            rot_ok = all(abs(sum(ents[i][k] * ents[j][k] for k in range(3)) - (1.0 if i == j else 0.0)) <= 1e-6
+                         for i in range(3) for j in range(3))
+            det = (ents[0][0] * (ents[1][1] * ents[2][2] - ents[1][2] * ents[2][1]) - ents[0][1] * (ents[1][0] * ents[2][2] - ents[1][2] * ents[2][0])
+                   + ents[0][2] * (ents[1][0] * ents[2][1] - ents[1][1] * ents[2][0]))
+            if not rot_ok or abs(det - 1.0) > 1e-6:
+                rec.items.append({"q": "model is not a rotation within 1e-6", "r": "ok"})
+                return rec.result()
+            try:
+                inv = M.inverse()
+            except (ArithmeticError, ZeroDivisionError) as e:
+                rec.fail = rec.fail or {"query": f"{cls.__name__}.inverse() raised on a rotation", "goal": f"{type(e).__name__}: {e}"[:200],
+                                        "model": dict(fx.used)}
+                continue
+            rec.native(f"type of {cls.__name__}.inverse()", type(inv) is cls, type(inv).__name__)
+            rec.prove(f"{cls.__name__}.inverse()==transpose (numeric)", [], _eq_all(z3, _ents(inv), [[ents[j][i] for j in range(3)] for i in range(3)]))
+            if rec.fail is not None and not rec.fail.get("model"):
+                rec.fail["model"] = dict(fx.used)
         return rec.result()
-    _use_lemmas(rec, fx, rcons, lemmas)
-    rec.satisfiable(fx.cons, "inverse_pivot")
 
-    def cut():
-        raise _Cut()
+    M, ents = fx.gen_matrix(sm.Py_Matrix, "m")
+    Mf, _ = fx.gen_matrix(sm.Py_FrozenMatrix, "m")
+    E = [[x.e for x in row] for row in ents]
+    delta = lambda i, j: 1 if i == j else 0
+    rows = [sum(E[i][k] * E[j][k] for k in range(3)) == delta(i, j) for i in range(3) for j in range(i, 3)]
+    cols = [sum(E[k][i] * E[k][j] for k in range(3)) == delta(i, j) for i in range(3) for j in range(i, 3)]
+    det = (E[0][0] * (E[1][1] * E[2][2] - E[1][2] * E[2][1]) - E[0][1] * (E[1][0] * E[2][2] - E[1][2] * E[2][0])
+           + E[0][2] * (E[1][0] * E[2][1] - E[1][1] * E[2][0]))
+    R = rows + cols + [det == 1]
+    ab = lambda e: z3.If(e >= 0, e, -e)
+    rec.satisfiable(R + [E[0][0] != 1, E[0][0] != 0], "rotation constraints (vacuity)")
 
-    def op():
-        symx.DIV_HOOK = cut
+    memo: Dict[Any, Any] = {}
+
+    def holds(label, cons, goal, to=20000, quiet=False):
+        key = (tuple(sorted(c.get_id() for c in cons)), goal.get_id())
+        if key not in memo:
+            res, _m = symx.prove(cons, goal, to)
+            memo[key] = (res, list(cons), goal)     # the ASTs are kept alive: z3 recycles the ids of freed terms
+            if not quiet or res == "holds":
+                rec.items.append({"q": label, "r": {"holds": "unsat", "cex": "sat"}.get(res, "unknown")})
+        return memo[key][0] == "holds"
+
+    # ---- abstract lemma C (both sides), with the associativity instance made explicit
+    O = [[z3.Real(f"o{i}{j}") for j in range(3)] for i in range(3)]
+    OM = [[sum(O[i][l] * E[l][k] for l in range(3)) for k in range(3)] for i in range(3)]
+    MO = [[sum(E[i][l] * O[l][k] for l in range(3)) for k in range(3)] for i in range(3)]
+    MMt = [[sum(E[k][l] * E[j][l] for l in range(3)) for j in range(3)] for k in range(3)]
+    MtM = [[sum(E[l][i] * E[l][k] for l in range(3)) for k in range(3)] for i in range(3)]
+    # (O.M).M^T == O.(M.M^T)   and   M^T.(M.O) == (M^T.M).O   as generic polynomial identities
+    assoc_l = [sum(OM[i][k] * E[j][k] for k in range(3)) == sum(O[i][k] * MMt[k][j] for k in range(3)) for i in range(3) for j in range(3)]
+    assoc_r = [sum(E[k][i] * MO[k][j] for k in range(3)) == sum(MtM[i][k] * O[k][j] for k in range(3)) for i in range(3) for j in range(3)]
+    okC = {"left": all(holds(f"lemma assoc-left[{n}] (generic)", [], g) for n, g in enumerate(assoc_l)),
+           "right": all(holds(f"lemma assoc-right[{n}] (generic)", [], g) for n, g in enumerate(assoc_r))}
+    A_ = [[z3.Real(f"A{i}{j}") for j in range(3)] for i in range(3)]
+    B_ = [[z3.Real(f"B{i}{j}") for j in range(3)] for i in range(3)]
+    unit = [A_[i][j] == delta(i, j) for i in range(3) for j in range(3)] + [B_[i][j] == delta(i, j) for i in range(3) for j in range(3)]
+    goalT = z3.And([O[i][j] == E[j][i] for i in range(3) for j in range(3)])
+    inst_l = [sum(A_[i][k] * E[j][k] for k in range(3)) == sum(O[i][k] * B_[k][j] for k in range(3)) for i in range(3) for j in range(3)]
+    inst_r = [sum(E[k][i] * A_[k][j] for k in range(3)) == sum(B_[i][k] * O[k][j] for k in range(3)) for i in range(3) for j in range(3)]
+    okC["left"] = okC["left"] and holds("lemma C-left: O.M==I, M.M^T==I, assoc => O==M^T", unit + inst_l, goalT)
+    okC["right"] = okC["right"] and holds("lemma C-right: M.O==I, M^T.M==I, assoc => O==M^T", unit + inst_r, goalT)
+    # |m_ij| <= 1 from the norm of its own row
+    box = []
+    for i in range(3):
+        for j in range(3):
+            if holds(f"|m_{i}{j}| <= 1 from the row norm", [rows[[0, 3, 5][i]]], ab(E[i][j]) <= 1):
+                box.append(ab(E[i][j]) <= 1)
+
+    # ---- the four rewrite rules of _ratnorm, proved abstractly
+    x, y, nx, dx, ny, dy = (z3.Real(n) for n in ("rx", "ry", "rnx", "rdx", "rny", "rdy"))
+    hyp = [dx != 0, dy != 0, x * dx == nx, y * dy == ny]
+    rules_ok = all([
+        holds("rule: x+y == (nx*dy+ny*dx)/(dx*dy)", hyp, z3.And(dx * dy != 0, (x + y) * (dx * dy) == nx * dy + ny * dx)),
+        holds("rule: x+y == (nx+ny)/dx when dy is dx", hyp + [dy == dx], (x + y) * dx == nx + ny),
+        holds("rule: x-y == (nx*dy-ny*dx)/(dx*dy)", hyp, (x - y) * (dx * dy) == nx * dy + (-ny) * dx),
+        holds("rule: x*y == (nx*ny)/(dx*dy)", hyp, z3.And(dx * dy != 0, (x * y) * (dx * dy) == nx * ny)),
+        holds("rule: -x == (-nx)/dx", hyp, (-x) * dx == -nx),
+        holds("rule: x/y == (nx*dy)/(dx*ny) for y != 0", hyp + [y != 0], z3.And(ny != 0, dx * ny != 0, (x / y) * (dx * ny) == nx * dy)),
+    ])
+    pts = [[z3.RealVal(v) for v in row] for row in ([3, -5, 7, 2, 11, -13, 17, 19, 23], [-2, 9, 4, 15, -7, 6, 1, 8, -21], [5, 1, -3, 2, 8, 13, -4, 7, 6])]
+    flatE = [E[i][j] for i in range(3) for j in range(3)]
+
+    def bridge(g, N, D, facts):
+        """Translator validation of _ratnorm on this very term: at a rational point where every divisor is non-zero,
+        z3's own evaluation of g equals its evaluation of N/D."""
+        for pt in pts:
+            sub = list(zip(flatE, pt))
+            ev = lambda t: z3.simplify(z3.substitute(t, *sub))
+            if not all(z3.is_true(ev(f)) for f in facts):
+                continue
+            dv = ev(D)
+            if not z3.is_rational_value(dv) or dv.numerator_as_long() == 0:
+                return False
+            ok = z3.is_true(z3.simplify(ev(g) == ev(N) / dv))
+            rec.items.append({"q": "bridge: term == N/D at a rational sample point (z3 evaluation)", "r": "ok" if ok else "FAILED"})
+            return ok
+        return False
+
+    # ---- enumerate every decision vector of the real code
+    def run_paths(mat):
+        log: List[Any] = []
+        symx.OP_LOG = log
+
+        def op():
+            del log[:]
+            try:
+                r = mat.inverse()
+            except ArithmeticError as e:
+                r = e
+            return r, list(log), list(symx.ENG.raw)
         try:
-            return M.inverse()
-        except ArithmeticError as e:
-            return e
-        except _Cut:
-            return "cut"
+            return [(pc, res, lg, raw) for pc, (res, lg, raw), _u in symx.explore(op, lambda: [], timeout_ms=1, max_paths=600)]
         finally:
-            symx.DIV_HOOK = None
-    n_cut = n_err = 0
-    for pc, (side, _nn), res, unk in _paths(fx, op):
-        if res == "cut":
-            n_cut += 1
-            continue
-        n_err += 1
-        cons = fx.cons + side + pc
-        s = symx.new_solver(60000)
-        s.add(cons)
-        r = symx.check(s)
-        rec.items.append({"q": f"no-pivot path {n_err} infeasible", "r": r})
-        if r == "sat":
+            symx.OP_LOG = None
+    paths = run_paths(M)
+    fpaths = run_paths(Mf)
+    same = len(paths) == len(fpaths)
+    if same:
+        for (pc, res, _l, _r), (pc2, res2, _l2, _r2) in zip(paths, fpaths):
+            if len(pc) != len(pc2) or any(not a.eq(b) for a, b in zip(pc, pc2)) or isinstance(res, Exception) != isinstance(res2, Exception):
+                same = False
+                break
+            if not isinstance(res, Exception):
+                if type(res2) is not sm.Py_FrozenMatrix or type(res) is not sm.Py_Matrix:
+                    same = False
+                    break
+                if any(not _e(a).eq(_e(b)) for ra, rb in zip(_ents(res), _ents(res2)) for a, b in zip(ra, rb)):
+                    same = False
+                    break
+    rec.native("FrozenMatrix.inverse(): same paths, same entries, result types Matrix/FrozenMatrix", same, f"{len(paths)} / {len(fpaths)} paths")
+    n_ok = sum(1 for p in paths if not isinstance(p[1], Exception))
+    rec.native("paths enumerated", n_ok >= 1 and len(paths) > n_ok, f"{len(paths)} paths, {n_ok} returning")
+
+    # group paths by their forward-phase prefix so that the memo is shared inside one part
+    prefixes: List[Any] = []
+
+    def group(pc):
+        key = tuple(c.get_id() for c in pc[:5])
+        if key not in prefixes:
+            prefixes.append(key)
+        return prefixes.index(key)
+    groups = [group(p[0]) for p in paths]
+
+    def distinct_dens(lg):
+        out = []
+        for it in lg:
+            if it[0] == "div" and not any(it[2].eq(d) for d, _n in out):
+                out.append((it[2], it[3]))
+        return out
+
+    def nonzero_chain(pc, lg, tag):
+        """Prove every denominator non-zero, in execution order. Returns (facts, pivots, sigma) or None."""
+        dens = distinct_dens(lg)
+        facts: List[Any] = []
+        sigma = None
+        for i, (d, npc) in enumerate(dens):
+            done = holds(f"{tag}: denominator {i} != 0 by the path condition", list(pc[:npc]) + facts, d != 0, 5000, quiet=True)
+            if not done:
+                for j in range(i):
+                    if holds(f"{tag}: denominator {i} == denominator {j} (generic)", facts, d == dens[j][0], 5000, quiet=True):
+                        done = True
+                        break
+            if not done and i == 2:
+                for sg in (1, -1):
+                    if holds(f"{tag}: p0*p1*p2 == {sg:+d}*det M (generic)", facts, dens[0][0] * dens[1][0] * d == sg * det, 20000, quiet=True):
+                        P = [z3.Real(f"P{k}") for k in range(3)]
+                        if holds("abstract: P0*P1*P2 == +-1 => P2 != 0", [P[0] * P[1] * P[2] == sg], P[2] != 0, 5000):
+                            done, sigma = True, sg
+                        break
+            if not done:
+                # not proved: ask for a rotation that reaches this division with a zero divisor and run the float code on it
+                if not find_rotation_cex(tag, list(pc[:npc]) + facts + [d == 0], []):
+                    rec.unknown.append(f"{tag}: denominator {i} not shown non-zero")
+                return None
+            facts.append(d != 0)
+        if len(dens) >= 3 and sigma is None:
+            for sg in (1, -1):
+                if holds(f"{tag}: p0*p1*p2 == {sg:+d}*det M (generic)", facts[:2], dens[0][0] * dens[1][0] * dens[2][0] == sg * det, 20000, quiet=True):
+                    sigma = sg
+                    break
+        return facts, [d for d, _n in dens[:3]], sigma
+
+    def pivot_bounds(pc, raw, lg, pivots, tag):
+        """|p_k| <= 2^k: entries are in [-1, 1] (row norms) and each forward multiplier has |q| <= 1 (pivot choice)."""
+        out = []
+        for k, pk in enumerate(pivots):
+            cache: Dict[int, Any] = {}
+            defs: List[Any] = []
+            pur = _purify(z3, pk, cache, defs)
+            qfacts = []
+            for q, num, den, _pn, _pd in defs:
+                N, D = z3.Real("N_abs"), z3.Real("D_abs")
+                sub = [z3.substitute(c, (num, N), (den, D)) for c in raw[:5]]
+                if holds(f"{tag}: forward multiplier |num/den| <= 1 by the pivot choice (abstracted operands)",
+                         sub + [D != 0], ab(N / D) <= 1, 5000, quiet=True) or \
+                   holds(f"{tag}: forward multiplier |num/den| <= 1 by the pivot choice", list(pc[:5]) + [den != 0], ab(num / den) <= 1, 10000, quiet=True):
+                    qfacts.append(ab(q) <= 1)
+            K = 2 ** k
+            if not holds(f"{tag}: |p{k}| <= {K} (entries and multipliers in [-1,1])", box + qfacts, ab(pur) <= K, 30000):
+                rec.unknown.append(f"{tag}: bound on pivot {k}")
+                return None
+            out.append(K)
+        return out
+
+    attempts = [0]
+
+    def find_rotation_cex(tag, cons, extra):
+        """A rotation on this path (solver model), replayed on the real float code. At most 16 attempts of 12 s per run."""
+        for ex in ([extra, []] if extra else [[]]):
+            if attempts[0] >= 16 or rec.fail is not None:
+                return rec.fail is not None
+            attempts[0] += 1
+            s = symx.new_solver(12000)
+            s.add(R + cons + ex)
+            if symx.check(s) != "sat":
+                continue
             m = s.model()
-            rec.fail = rec.fail or {"query": "inverse(): no pivot found in the first column of a rotation", "goal": "",
-                                    "model": {str(d): symx.model_value(m, d()) for d in m.decls()}}
-        elif r != "unsat":
-            rec.unknown.append(f"no-pivot path {n_err}: {r}")
-    rec.native("pivot paths explored", n_cut >= 3, f"{n_cut} cut, {n_err} error paths")
+            vals = {str(d): symx.model_value(m, d()) for d in m.decls() if d.arity() == 0}
+            chk = o_inverse(_concrete=vals)
+            rec.items.append({"q": f"{tag}: rotation model replayed on the float code", "r": chk["verdict"]})
+            if chk["verdict"] == "reproduced":
+                rec.fail = {"query": f"{tag}: inverse() != transpose() on a rotation", "goal": chk["detail"][:300], "model": vals}
+                return True
+        return False
+
+    for idx, (pc, res, lg, raw) in enumerate(paths):
+        if groups[idx] % nparts != part or rec.fail is not None:
+            continue
+        tag = f"path {idx}"
+        if isinstance(res, Exception):
+            n_abs = [it for it in lg if it[0] == "abs"]
+            dens = distinct_dens(lg)
+            if len(dens) < 3:
+                # pivot search failed in column 0 or 1: impossible with unit, mutually orthogonal columns
+                if holds(f"{tag}: 'no pivot' path infeasible (columns orthonormal)", [], z3.Not(z3.And(cols + list(pc))), 30000) or \
+                   holds(f"{tag}: 'no pivot' path infeasible (rotation)", [], z3.Not(z3.And(R + list(pc))), 60000):
+                    continue
+                if not find_rotation_cex(tag, list(pc), []):
+                    rec.unknown.append(f"{tag}: no-pivot path not refuted")
+                continue
+            chain = nonzero_chain(pc[:-1], lg, tag)
+            if chain is None:
+                continue
+            facts, pivots, sigma = chain
+            v = n_abs[-1][1]
+            which = [k for k, pk in enumerate(pivots) if holds(f"{tag}: rejected diagonal value == pivot {k} (generic)", facts, v == pk, 10000, quiet=True)]
+            bounds = pivot_bounds(pc, raw, lg, pivots, tag) if which and sigma is not None else None
+            if bounds is None:
+                rec.unknown.append(f"{tag}: tolerance rejection not refuted")
+                continue
+            P = [z3.Real(f"P{k}") for k in range(3)]
+            n = which[0]
+            rejected = z3.substitute(raw[-1], (v, P[n]))       # the real code's own final decision, about the abstract pivot
+            if holds(f"abstract: the rejection test on P{n}, |P_k| <= 2^k, P0*P1*P2 == +-1 is contradictory",
+                     [P[0] * P[1] * P[2] == sigma] + [ab(P[k]) <= bounds[k] for k in range(3)], z3.Not(rejected), 10000):
+                continue
+            if not find_rotation_cex(tag, list(pc) + facts, []):
+                rec.unknown.append(f"{tag}: tolerance rejection not refuted")
+            continue
+        # ---- a returning path
+        chain = nonzero_chain(pc, lg, tag)
+        if chain is None:
+            continue
+        facts, pivots, sigma = chain
+        out = [[_e(x) for x in row] for row in _ents(res)]
+        side = None
+        for name, prod in (("left", lambda i, j: sum(out[i][k] * E[k][j] for k in range(3))),
+                           ("right", lambda i, j: sum(E[i][k] * out[k][j] for k in range(3)))):
+            if not okC[name] or not rules_ok:
+                continue
+            good = True
+            for i in range(3):
+                for j in range(3):
+                    g = prod(i, j) - delta(i, j)
+                    N, D = _ratnorm(z3, g, {})
+                    lbl = f"{tag}: numerator of ({'out.M' if name == 'left' else 'M.out'} - I)[{i}{j}] is the zero polynomial"
+                    if not (holds(lbl, [], N == 0, 30000, quiet=True) and bridge(g, N, D, facts)):
+                        good = False
+                        break
+                if not good:
+                    break
+            if good:
+                # negative control: the same machinery must NOT prove out.M == 2*I
+                N2, _D2 = _ratnorm(z3, prod(0, 0) - 2, {})
+                good = not holds(f"{tag}: control (out.M)[00] == 2 must fail", [], N2 == 0, 10000, quiet=True)
+                if not good:
+                    rec.unknown.append(f"{tag}: negative control proved")
+            if good:
+                side = name
+                break
+        if side is None:
+            # not proved as an identity: ask for a rotation on this path and run the real float code on it
+            if not find_rotation_cex(tag, list(pc) + facts, [z3.Or([out[i][j] != E[j][i] for i in range(3) for j in range(3)])]):
+                rec.unknown.append(f"{tag}: inverse identity not proved")
+            continue
+        rec.items.append({"q": f"{tag}: inverse()==transpose() by lemma C-{side}", "r": "unsat"})
     return rec.result()
+
+
+def _rv_const(z3, v):
+    from vf.symx import _rv
+    return _rv(v)
+
 
 
 def replay(o: str = "", **kw):
@@ -657,7 +1000,7 @@ def replay(o: str = "", **kw):
 
 def _mk_replay(name):
     def rp(**cex):
-        params = {k: v for k, v in cex.items() if k in ("entry", "timeout_s")}
+        params = {k: v for k, v in cex.items() if k in ("entry", "timeout_s", "part", "nparts")}
         model = {k: v for k, v in cex.items() if k not in params}
         r = globals()[name](_concrete=model, **params)
         if r["verdict"] == "reproduced":
@@ -667,7 +1010,7 @@ def _mk_replay(name):
     return rp
 
 
-for _n in ("o_convention", "o_dispatch", "o_matrix_products", "o_angle_products", "o_roundtrip", "o_inverse_pivot"):
+for _n in ("o_convention", "o_dispatch", "o_matrix_products", "o_angle_products", "o_roundtrip", "o_inverse"):
     globals()["replay_" + _n] = _mk_replay(_n)
 
 
@@ -685,7 +1028,11 @@ def o_validate_encoding():
             for ax, v in zip("pyr", (a, b, c)):
                 model[f"{pre}_s{ax}"] = _m.sin(_m.radians(v))
                 model[f"{pre}_c{ax}"] = _m.cos(_m.radians(v))
-        for f in (o_convention, o_dispatch, o_matrix_products, o_angle_products, o_roundtrip, o_inverse_pivot):
+        ref = _sdk_matrix([CTag(p_), CTag(y_), CTag(r_)])
+        for i in range(3):
+            for j in range(3):
+                model[f"m_{i}{j}"] = ref[i][j]
+        for f in (o_convention, o_dispatch, o_matrix_products, o_angle_products, o_roundtrip, o_inverse):
             r = f(_concrete=model)
             n += r.get("checked", 0)
             if r["verdict"] == "reproduced" and bad is None:
@@ -707,5 +1054,8 @@ def obligations(tier):
            bound="all reals, non-gimbal branch (horiz_dist > 0.001)"),
         ob("roundtrip", "o_roundtrip", "from_angle(to_angle(M)) == M for M = any Euler rotation; weaker facts on the gimbal branch",
            bound="all reals; gimbal branch: forward.z, roll = 0, exact when exactly vertical"),
-        ob("inverse_pivot", "o_inverse_pivot", "inverse() finds a first-column pivot on every rotation (partial clause)"),
+        ob("inverse", "o_inverse", "inverse() == transpose() on every proper rotation, on every pivoting path of the Gauss-Jordan code "
+           "(Matrix and FrozenMatrix); no ArithmeticError / division by zero on a rotation",
+           bound="all real 3x3 matrices with M.M^T = M^T.M = I and det M = 1; every decision vector of inverse()",
+           slices=[{"part": k, "nparts": 8} for k in range(8)], budget=900),
     ]
